@@ -180,6 +180,25 @@ def anchorAfterUnnamedWildcard (q : String) : Bool :=
     | [] => false
   go toks
 
+/-- An anchor directly after a supertype pattern `(sup …) @c* .` or directly after a supertype head
+`(sup . …`. -/
+def anchorAfterSupertype (sups : List String) (q : String) : Bool :=
+  let toks := (tokenize (q.length + 1) q.toList #[]).toList
+  let rec skipCaps : List Tok → List Tok
+    | .cap _ :: rest => skipCaps rest
+    | ts => ts
+  let rec go : List Bool → List Tok → Bool
+    | _, [] => false
+    | st, .lp :: .ident k :: rest =>
+      (sups.contains k && (match rest with | .dot :: _ => true | _ => false)) || go (sups.contains k :: st) rest
+    | st, .lp :: rest => go (false :: st) rest
+    | st, .rp :: rest =>
+      match st with
+      | g :: st' => (g && (match skipCaps rest with | .dot :: _ => true | _ => false)) || go st' rest
+      | [] => go [] rest
+    | st, _ :: rest => go st rest
+  go [] toks
+
 /-- `( … ( group ) . )`: a trailing anchor directly after a plain group. -/
 def trailingAnchorAfterGroup (q : String) : Bool :=
   let toks := (tokenize (q.length + 1) q.toList #[]).toList
@@ -194,6 +213,26 @@ def trailingAnchorAfterGroup (q : String) : Bool :=
       | [] => go [] rest
     | st, _ :: rest => go st rest
   go [] toks
+
+/-- Model matches that no other model match of the same pattern extends, and that no reported match
+of that pattern covers. -/
+def maximalMissing (model impl : List MatchKey) : List MatchKey :=
+  let maximal := model.filter fun x => !(model.any fun y => y.1 == x.1 && y != x && subBag x.2 y.2)
+  maximal.filter fun x => !(impl.any fun y => y.1 == x.1 && subBag x.2 y.2)
+
+/-- `…)? .` / `…* @c .`: an anchor right after a quantified child pattern. -/
+def quantifierBeforeAnchor (q : String) : Bool :=
+  let toks := (tokenize (q.length + 1) q.toList #[]).toList
+  let rec go : List Tok → Bool
+    | .quant _ :: rest => (match dropCaps rest with | .dot :: _ => true | _ => false) || go rest
+    | _ :: rest => go rest
+    | [] => false
+  go toks
+
+/-- The only quantifier used is `?` (present-or-absent: no choice of how many repetitions). -/
+def onlyOptionalQuantifiers (q : String) : Bool :=
+  let toks := (tokenize (q.length + 1) q.toList #[]).toList
+  toks.all fun t => match t with | .quant .star => false | .quant .plus => false | _ => true
 
 def runCase (s : St) : String :=
   let tail := s!"compiled={s.compiled.getD false} haserror={s.hasError}"
@@ -245,6 +284,7 @@ def runCase (s : St) : String :=
             else if trailing then "unsound-quantified-trailing-anchor"
             else if wildKids && (s.query.splitOn "!").length > 1 then "unsound-wildroot-test-skipped"
             else if wildKids && s.hasError then "unsound-wildroot-error-parent"
+            else if s.sups.any (fun n => (s.query.splitOn ("(" ++ n ++ " ")).length > 1) then "unsound-supertype-root-test-skipped"
             else "unsound"
           s!"{s.id} judge=FAIL {kind} first={repr bad.head!} {info}"
         else if !quant && !soundB impl model then
@@ -253,7 +293,17 @@ def runCase (s : St) : String :=
         else if !quant && !completeB impl model then
           let bad := model.filter fun x => countOf x model > countOf x impl
           let subsumed := bad.all fun x => impl.any fun y => y.1 == x.1 && y != x && subBag x.2 y.2
-          let kind := if subsumed then "incomplete-subsumed" else if trailingAnchorAfterGroup s.query then "incomplete-trailing-anchor-after-group" else if s.hasError && (s.query.splitOn "(ERROR").length > 1 && (s.query.splitOn ": ").length > 1 then "incomplete-field-under-error-node" else if (s.query.splitOn "[").length > 1 && (s.query.splitOn "(_ ").length > 1 then "incomplete-wildroot-branch-in-alternation" else if anchorAfterNestedWildcard s.query then "incomplete-anchor-after-nested-wildcard" else if anchorAfterAlternation s.query then "incomplete-anchor-after-uncaptured-alternation" else if uncapturedSubtree s.query then "incomplete-uncaptured-subtree" else if (s.query.splitOn "(MISSING").length > 1 then "incomplete-missing-uncaptured" else if (s.query.splitOn "(ERROR ").length > 1 then "incomplete-error-children-uncaptured" else if anchorAfterUncapturedSubtree s.query then "incomplete-anchor-after-uncaptured-subtree" else if anchorAfterUnnamedWildcard s.query then "incomplete-strict-anchor-after-uncaptured-unnamed-wildcard" else if anchorAfterUncaptured s.query then "incomplete-anchor-uncaptured" else "incomplete"
+          let kind := if subsumed then "incomplete-subsumed" else if trailingAnchorAfterGroup s.query then "incomplete-trailing-anchor-after-group" else if anchorAfterSupertype s.sups s.query then "incomplete-anchor-after-supertype" else if s.hasError && (s.query.splitOn "(ERROR").length > 1 && (s.query.splitOn ": ").length > 1 then "incomplete-field-under-error-node" else if (s.query.splitOn "[").length > 1 && (s.query.splitOn "(_ ").length > 1 then "incomplete-wildroot-branch-in-alternation" else if anchorAfterNestedWildcard s.query then "incomplete-anchor-after-nested-wildcard" else if anchorAfterAlternation s.query then "incomplete-anchor-after-uncaptured-alternation" else if uncapturedSubtree s.query then "incomplete-uncaptured-subtree" else if (s.query.splitOn "(MISSING").length > 1 then "incomplete-missing-uncaptured" else if (s.query.splitOn "(ERROR ").length > 1 then "incomplete-error-children-uncaptured" else if anchorAfterUncapturedSubtree s.query then "incomplete-anchor-after-uncaptured-subtree" else if anchorAfterUnnamedWildcard s.query then "incomplete-strict-anchor-after-uncaptured-unnamed-wildcard" else if anchorAfterUncaptured s.query then "incomplete-anchor-uncaptured" else "incomplete"
+          s!"{s.id} judge=FAIL {kind} first={repr bad.head!} {info}"
+        else if quant && onlyOptionalQuantifiers s.query && !(maximalMissing model impl).isEmpty then
+          -- quantified patterns: which of several overlapping repetitions is reported is
+          -- implementation-defined, but a binding that no other binding extends (the longest match)
+          -- must be covered by a reported match of that pattern
+          let bad := maximalMissing model impl
+          let kind := if trailingAnchorAfterGroup s.query then "incomplete-trailing-anchor-after-group"
+            else if anchorAfterSupertype s.sups s.query then "incomplete-anchor-after-supertype"
+            else if quantifierBeforeAnchor s.query then "quantified-maximal-binding-missing-anchor-after-quantifier"
+            else "quantified-maximal-binding-missing"
           s!"{s.id} judge=FAIL {kind} first={repr bad.head!} {info}"
         else if cqJudge != "ok" then s!"{s.id} judge=FAIL capture-count-outside-quantifier {info}"
         else s!"{s.id} judge=ok {info}"
